@@ -1243,6 +1243,7 @@ type localBinding struct {
 	name string
 	blk  *ssa.BasicBlock
 	val  Val
+	cell *LVal // address-taken local: its content is read in the state the clause is evaluated in
 }
 
 // bindLocals makes the locals whose binding dominates the current block visible by name (latest wins);
@@ -1259,6 +1260,12 @@ func (t *fnTrans) bindLocalsAt(env *specEnv, blk *ssa.BasicBlock) {
 	strict := blk != t.cur
 	got := map[string]Val{}
 	for _, lb := range t.locals {
+		if lb.cell != nil {
+			if lb.blk == blk || lb.blk.Dominates(blk) {
+				got[lb.name] = t.load(env.cur, lb.cell)
+			}
+			continue
+		}
 		if (lb.blk == blk && !strict) || (lb.blk != blk && lb.blk.Dominates(blk)) {
 			got[lb.name] = lb.val
 		}
